@@ -60,4 +60,57 @@ def Stream.scannedSeeded (st : Stream) : List Nat := st.data.drop st.pos
 def openResultSeeded (defused : Bool) (st : Stream) : Option (List Nat) :=
   if defused && !scanPasses (classify st.scannedSeeded) then none else some st.parsed
 
+/-! ### a file-like source that declares a URL (`url` attribute: urllib responses, wrapped streams)
+
+  xml_resource.py:196-200: for a file-like source only `self.fp` is set — `self.url` stays None; the `url`
+  attribute of the object is used for access control only.  open() (xml_resource.py:453-462, 478-503)
+  decides on `self.url`, never on the attribute: the stream that was given is the stream that is scanned.
+  The "double opening" branch exists only for sources GIVEN AS A URL (`self.url` set, the parsed stream was
+  itself opened from that URL). -/
+
+open XsVerif.Defuse
+
+/-- a file-like object given as source; URLs are numbered, `web u` = the content reachable at URL `u` -/
+structure Given where
+  st : Stream
+  io : IoKind
+  hasOpener : Bool
+  declared : Option Nat      -- the `url` attribute of the object, if any
+  deriving DecidableEq, Repr
+
+/-- `self.url` of the resource built from a file-like object -/
+def Given.selfUrl (_ : Given) : Option Nat := none
+
+/-- what the decision table of open() looks at -/
+def Given.chan (g : Given) : Chan :=
+  { seekable := g.st.seekable, io := g.io, hasOpener := g.hasOpener, hasUrl := g.selfUrl.isSome }
+
+/-- the bytes the scan is fed (`none`: no scan — defusing does not apply, or open() refuses outright) -/
+def scanInput (v : Variant) (m : Mode) (b : BaseClass) (web : Nat → List Nat) (g : Given) : Option (List Nat) :=
+  match plan v m b g.chan with
+  | .rewind | .wrapRaw | .wrapBuffered | .wrapText => some g.st.scanned
+  | .secondOpen => g.selfUrl.map web
+  | .noDefuse | .refuse => none
+
+/-- the bytes the parser is fed (`none`: open() raised before) -/
+def parseInput (v : Variant) (m : Mode) (b : BaseClass) (g : Given) : Option (List Nat) :=
+  match plan v m b g.chan with
+  | .refuse => none
+  | _ => some g.st.parsed
+
+/-- a source given as a URL: the stream that is parsed was opened from `u`; when it cannot be rewound or
+    wrapped (custom opener) a second stream is opened from the SAME `u` and scanned -/
+def urlScanInput (web : Nat → List Nat) (u : Nat) : List Nat := web u
+def urlParseInput (web : Nat → List Nat) (u : Nat) : List Nat := web u
+
+/-- NOT the code: seeded change C13-6 (`url = self.url or getattr(fp, 'url', None)`) -/
+def Given.chanSeeded (g : Given) : Chan :=
+  { seekable := g.st.seekable, io := g.io, hasOpener := g.hasOpener, hasUrl := g.declared.isSome }
+
+def scanInputSeeded (v : Variant) (m : Mode) (b : BaseClass) (web : Nat → List Nat) (g : Given) : Option (List Nat) :=
+  match plan v m b g.chanSeeded with
+  | .rewind | .wrapRaw | .wrapBuffered | .wrapText => some g.st.scanned
+  | .secondOpen => g.declared.map web
+  | .noDefuse | .refuse => none
+
 end XsVerif.OpenFlow
